@@ -1397,3 +1397,39 @@ func (c *Ctl) Two(x string) error { return nil }
 		symxAssert(conflicts == 2, "C18.front.both-conflicting-methods-are-reported")
 	}
 }
+
+// C10 through the front end: a URL parameter at the very start of the method's route (no leading slash) is linked
+// like any other
+func vh_C10_front_leading_param_Q() {
+	route := []string{"{id}", "{id}/details", "/{id}", "x/{id}"}[symxChoice("route", 4)]
+	binding := symxChoice("binding", 4)
+	pathAnn := []string{"// @Path(id)\n", "// @Path(p, { name: \"id\" })\n", "", "// @Path(p, { name: \"other\" })\n"}[binding]
+	param := []string{"id string", "p string", "", "p string"}[binding]
+	src := `package ctl
+
+import "github.com/gopher-fleece/runtime"
+
+// @Tag(T)
+// @Route(/c)
+type Ctl struct {
+	runtime.GleeceController
+}
+
+// @Method(GET)
+// @Route(` + route + `)
+` + pathAnn + `func (c *Ctl) Op(` + param + `) error { return nil }
+`
+	fr, err := visitors.VhLoadSource(src, nil)
+	symxAssert(err == nil, "C10.front.fixture-loads")
+	if err != nil {
+		return
+	}
+	_, err = pipeline.VhNewPipeline(fr, vhFrontConfig()).Run()
+	if binding <= 1 {
+		symxCover("C10.front.leading.well-formed")
+		symxAssert(err == nil, "C10.front.well-formed-route-is-never-rejected")
+	} else {
+		symxCover("C10.front.leading.unbound")
+		symxAssert(err != nil, "C10.front.unbound-url-parameter-is-rejected")
+	}
+}
